@@ -90,6 +90,34 @@ func c14Check(c c14Case) *Violation {
 				return viol("output-file", "[gts %q < %s -o file%s]: written over an existing longer file the output has %d bytes, written to a new file %d bytes (first difference at byte %d: %q)", s.Args, s.In, s.Ext, len(want.Out), len(w2.Out), d, clipStr(string(want.Out[minInt(d, len(want.Out)):]), 80))
 			}
 		}
+		if s.Out && s.Ext != "" && want.Exit == 0 && !s.inPlace() {
+			// the format of an -o file follows from its extension - the last suffix of the name - exactly as if it had
+			// been asked for with -F
+			hasF := false
+			for _, a := range s.Args {
+				if a == "-F" || a == "--format" {
+					hasF = true
+				}
+			}
+			name := map[string]string{".fasta": "fasta", ".gb": "genbank", ".genbank": "genbank"}[s.Ext[strings.LastIndexByte(s.Ext, '.'):]]
+			// only for the commands whose -F is the output format (summary's -F and query's options mean other things)
+			takesFormat := false
+			for _, v := range c14Variants[s.Args[0]] {
+				if len(v) >= 2 && v[0] == "-F" && v[1] == "fasta" {
+					takesFormat = true
+				}
+			}
+			if !hasF && takesFormat {
+				alt := c14Step{Args: append([]string{}, s.Args...), In: s.In, Alt: s.Alt}
+				if name != "" {
+					alt.Args = append([]string{s.Args[0], "-F", name}, s.Args[1:]...)
+				}
+				if w3 := uncached(alt); w3.Exit == 0 && !bytes.Equal(w3.Out, want.Out) {
+					d := firstDiff(string(want.Out), string(w3.Out))
+					return viol("output-format", "[gts %q < %s]: -o file%s holds %d bytes, the same run to standard output with %q holds %d (first difference at byte %d: %q vs %q)", s.Args, s.In, s.Ext, len(want.Out), alt.Args[1:minInt(3, len(alt.Args))], len(w3.Out), d, clipStr(string(want.Out[minInt(d, len(want.Out)):]), 60), clipStr(string(w3.Out[minInt(d, len(w3.Out)):]), 60))
+				}
+			}
+		}
 		if got.Exit != want.Exit {
 			return viol("exit-status", "after %s: cached run exits %d, --no-cache exits %d (stderr %q vs %q)", strings.Join(hist, " ; "), got.Exit, want.Exit, clipStr(got.Stderr, 200), clipStr(want.Stderr, 200))
 		}
@@ -221,7 +249,7 @@ func c14Gen(t *rapid.T) c14Case {
 		st.Inp = rapid.IntRange(0, 2).Draw(t, "inp") == 0
 		if st.Out {
 			st.Old = rapid.Bool().Draw(t, "old")
-			st.Ext = rapid.SampledFrom([]string{"", "", ".fasta", ".gb", ".genbank", ".txt"}).Draw(t, "ext")
+			st.Ext = rapid.SampledFrom([]string{"", "", ".fasta", ".gb", ".genbank", ".txt", ".gb.fasta", ".fasta.gb", ".genbank.fasta", ".fastq.gb", ".3.fasta", ".fasta.txt", ".embl.genbank"}).Draw(t, "ext")
 		}
 		c.Steps = append(c.Steps, st)
 	}
@@ -278,6 +306,7 @@ func TestC14(t *testing.T) {
 				{Steps: []c14Step{sa("small", false), salt("small"), sa("small", false), salt("small")}},
 				{Steps: []c14Step{sa("small", false), se("small", ".fasta"), sa("small", false), se("small", ".gb")}},
 				{Steps: []c14Step{se("smallfa", ".gb"), sa("smallfa", false), se("smallfa", ".fasta"), se("smallfa", ".genbank")}},
+				{Steps: []c14Step{se("small", ".gb.fasta"), se("small", ".fasta.gb"), se("small", ".3.fasta"), se("small", ".fasta.txt")}},
 				{Steps: []c14Step{ssin("small", 2), sa("small", false), ssin("two", 1), ssin("small", 1)}},
 				{Steps: []c14Step{sold("small"), sold("small"), sa("small", false), sold("small")}},
 				{Steps: []c14Step{sinp("small"), sinp("two"), sa("two", false), sinp("two")}},
